@@ -18,7 +18,10 @@ outside them:
     its own ReceiveTimer / SendTimer recorded and replayed through the model (timers created from
     min(local, peer): theorem negotiated_hold_is_min), and the property's bounds evaluated on the
     timestamps the remote observes.
-The OPENCONFIRM hold timer (F18) stays with the session rig.
+  * OPENCONFIRM: the same real Peer.run() stopped after the peer's OPEN; the first KEEPALIVE comes at H - e, H + e,
+    exactly H, never, or another message comes first, for H in {3, 9, 90, 65535, 0}; the wait as the peer lived it
+    (entry of Peer._read_ka, every read_message result, outcome) is put to the model (`timer openconfirm`), the
+    hand-over to the established timers is replayed call by call, the oracle judges what the remote observes.
 """
 
 from __future__ import annotations
@@ -39,7 +42,7 @@ ASSUMPTIONS = [
     'silence is measured where the timers see it: from the loop iteration that handed the last real message to check_ka, not from its arrival on the socket',
     'the main loop reaches the two timer calls at least every delta ms (it blocks in sock_sendall under back-pressure): runtime, measured by the session rig (part b)',
     'writes succeed: a NetworkError inside new_keepalive is turned into Notify(4,0) by KA.send_if_needed (modelled and compared at class level, excluded from the schedule theorems)',
-    'OPENCONFIRM is outside this part: _read_ka calls check_ka_timer only after a message arrived, so no timer runs while waiting for the first KEEPALIVE (F18, session rig)',
+    'OPENCONFIRM: "received" means a complete message handed over by read_message; the single wait_for of _read_ka is not re-armed by the first bytes of a message still incomplete at its deadline',
 ]
 TRUSTED_EXTRA = [
     'harness/timerrig.py: replaces the `time` name in exabgp.bgp.timer by a settable clock (float seconds = ms/1000); the `poll` op re-states the two timer lines of Peer._main and _run\'s `except Notify`',
@@ -424,15 +427,24 @@ def run(ctx: Ctx) -> None:
     est_fail: set = set()
     n_before = len(ctx.failures)
     for c in load_corpus():
-        if 'local' in c:
+        if 'local' in c and c.get('stage') != 'openconfirm':
             check_estab(ctx, {k: c[k] for k in ('local', 'peer', 'arrivals', 'kind', 'routes')}, 'corpus', est_fail)
     for case in estab_cases(rng, ctx.tier):
         if ctx.time_left() < 3:
             ctx.notes.append('budget reached inside the establishment stream')
             break
         check_estab(ctx, case, 'pairs', est_fail)
+    # 4. OPENCONFIRM: the peer's OPEN is in, the first KEEPALIVE comes at H - e, H + e, never
+    for c in load_corpus():
+        if c.get('stage') == 'openconfirm':
+            check_oc(ctx, {k: c[k] for k in ('local', 'peer', 'arrivals', 'kind', 'until')}, 'corpus', est_fail)
+    for case in oc_cases(rng, ctx.tier):
+        if ctx.time_left() < 3:
+            ctx.notes.append('budget reached inside the OPENCONFIRM stream')
+            break
+        check_oc(ctx, case, 'pairs', est_fail)
     if len(ctx.failures) - n_before > 5:
-        ctx.notes.append(f'{len(ctx.failures) - n_before} failing establishment cases; the 5 smallest are reported')
+        ctx.notes.append(f'{len(ctx.failures) - n_before} failing establishment / OPENCONFIRM cases; the 5 smallest are reported')
         tail = sorted(ctx.failures[n_before:], key=lambda f: (f.canon['local'] + f.canon['peer'], json.dumps(f.canon)))
         ctx.failures[n_before:] = tail[:5]
 
@@ -702,11 +714,125 @@ def check_estab(ctx: Ctx, case: dict, origin: str, seen_fail: set) -> None:
             ctx.failures.append(Failure('session-script', canon, dict(small, establishment=True), oracle_estab(small, run_estab(small)) or what))
 
 
+# ---------------------------------------------------------------------------------------------
+# OPENCONFIRM stream: the peer has sent its OPEN; when (if ever) does the first KEEPALIVE come
+
+
+def oc_cases(rng, tier: str) -> list[dict]:
+    cases = []
+    pairs = [(3, 180), (180, 3), (9, 9), (90, 180), (65535, 65535), (0, 180), (180, 0), (0, 0)]
+    if tier != 'quick':
+        pairs += [(3, 3), (9, 180), (180, 90), (65535, 3), (4, 5), (30, 30), (180, 180), (rng.randrange(3, 400), rng.randrange(3, 400))]
+    for local, peer in pairs:
+        h = min(local, peer)
+        if h:
+            tail = (h + 3) * 1000 if h <= 9 else 1500  # a long established phase is a million loop iterations
+            cases.append({'local': local, 'peer': peer, 'arrivals': [], 'kind': 'keepalive', 'until': (h + 4) * 1000})
+            for off in [-500, -50, -1, 0, 1, 50, 500] + ([rng.randrange(-h * 1000 + 1, 0), rng.randrange(1, 3000)] if tier != 'quick' else []):
+                a = h * 1000 + off
+                cases.append({'local': local, 'peer': peer, 'arrivals': [a], 'kind': 'keepalive', 'until': max(a, h * 1000) + tail})
+            cases.append({'local': local, 'peer': peer, 'arrivals': [h * 500], 'kind': 'update', 'until': h * 1000 + 2000})
+            cases.append({'local': local, 'peer': peer, 'arrivals': [h * 1000 + 700], 'kind': 'refresh', 'until': h * 1000 + 2000})
+        else:
+            top = max(local, peer, 180)
+            cases.append({'local': local, 'peer': peer, 'arrivals': [], 'kind': 'keepalive', 'until': (top + 20) * 1000})
+            cases.append({'local': local, 'peer': peer, 'arrivals': [(top + 1) * 1000 + 250], 'kind': 'keepalive', 'until': (top + 5) * 1000})
+            cases.append({'local': local, 'peer': peer, 'arrivals': [100000], 'kind': 'update', 'until': 103000})
+    return cases
+
+
+def oracle_oc(case: dict, res: dict) -> str | None:
+    """The property on what the REMOTE observes after it sent its OPEN and ExaBGP went to OPENCONFIRM
+    (ms after that moment; the remote's OPEN left at most `t0` ms earlier).  H = min of the two OPENs.
+      H = 0: never a NOTIFICATION 4/0;
+      H > 0: a 4/0 comes no earlier than H s after the last complete message the remote sent before it
+             (its OPEN if none); if the remote sends nothing in the first (H+1) s + 250 ms, the 4/0 has been
+             sent by then (one second and 250 ms of scheduling granularity allowed, as when established)."""
+    H = min(case['local'], case['peer'])
+    notifs = [(ms, k, st) for ms, k, st in res['wrote'] if k.startswith('NOTIFICATION')]
+    real = sorted(case['arrivals']) if case['kind'] in REAL else []
+    open_sent_before = int(res['t0'] * 1000) + 1
+    for ms, k, st in notifs:
+        if k != 'NOTIFICATION 4 0':
+            continue
+        if H == 0:
+            return f'hold timer fired in {st} ({ms:.0f} ms after the peer\'s OPEN) although the negotiated hold time is 0 (our OPEN {case["local"]}, peer OPEN {case["peer"]})'
+        before = [a for a in real if a < ms]
+        if before:
+            if not ms - max(before) >= H * 1000:
+                return f'4/0 in {st} only {ms - max(before):.0f} ms after the {case["kind"]} the remote sent, hold time {H} s'
+        elif not ms + open_sent_before >= H * 1000:
+            return f'4/0 in {st} {ms:.0f} ms after the peer\'s OPEN, hold time {H} s'
+    if H > 0:
+        limit = (H + 1) * 1000 + 250
+        first = real[0] if real else None
+        if (first is None or first > limit) and res['until_ms'] > limit:
+            if not any(k == 'NOTIFICATION 4 0' and ms <= limit for ms, k, st in notifs):
+                seen = [(ms, k) for ms, k, st in notifs][:2]
+                return f'the peer sent its OPEN and then nothing for {min(res["until_ms"], first or res["until_ms"]):.0f} ms, hold time {H} s: no NOTIFICATION 4/0 within {limit} ms (session in {res["fsm"]}, notifications {seen})'
+    return None
+
+
+def run_oc(case: dict) -> dict:
+    from harness import timerrig
+
+    return timerrig.run_establishment(case['local'], case['peer'], case['arrivals'], case['kind'], 0, case['until'], stage='openconfirm')
+
+
+def check_oc(ctx: Ctx, case: dict, origin: str, seen_fail: set) -> None:
+    from harness import timerrig
+
+    res = run_oc(case)
+    ctx.evaluations += 1
+    H = min(case['local'], case['peer'])
+    ctx.count('openconfirm:' + origin)
+    ctx.count('openconfirm:negotiated-' + h_class(H))
+    oc = res['oc']
+    out = oc['out'] if oc else 'never-entered'
+    ctx.count('openconfirm-outcome:' + ' '.join(w for i, w in enumerate(out.split()) if i != 1 or not w.isdigit()))
+    ctx.nontrivial({'openconfirm': case})
+    ctx.sample({'openconfirm': case, 'wait_began': oc and oc['tW'], 'reads': oc and oc['reads'][:3], 'outcome': out, 'remote_saw': [(ms, k, st) for ms, k, st in res['wrote'] if k != 'UPDATE'][:4]}, cap=9)
+    if oc is None:
+        ctx.disagreements.append(Disagreement('openconfirm', case, 'Peer._read_ka entered', 'never entered'))
+    elif ctx.driver_ok:
+        lines, impl = timerrig.establishment_lines(case['local'], case['peer'], res['records'])
+        q = timerrig.openconfirm_line(case['local'], case['peer'], oc, case['until'])
+        model = common.run_driver('drv_timer', [q] + lines)
+        m = model[0]
+        ok = m == out or (m.startswith('race') and out.split()[0] in ('established', 'notify') and out.split()[1] == m.split()[1])
+        if not ok:
+            ctx.count('disagreement')
+            ctx.disagreements.append(Disagreement('openconfirm', {'case': case, 'query': q}, m, out))
+        for j, (l, a, b) in enumerate(zip(lines, impl, model[1:])):
+            if a != timerrig.model_view(l, b):
+                ctx.count('disagreement')
+                ctx.disagreements.append(Disagreement('openconfirm-handover', {'case': case, 'call': j, 'line': l, 'before': lines[max(0, j - 3) : j]}, timerrig.model_view(l, b), a))
+                break
+    what = oracle_oc(case, res)
+    if what:
+        ctx.count('oracle-fail')
+        canon = {'stage': 'openconfirm', 'local': case['local'], 'peer': case['peer'], 'kind': case['kind'] if case['arrivals'] else '-', 'arrivals': case['arrivals']}
+        key = json.dumps(canon)
+        if key not in seen_fail:
+            seen_fail.add(key)
+            ctx.failures.append(Failure('session-script', canon, dict(case, stage='openconfirm'), what))
+
+
 def replay(path: str) -> int:
     from harness import timerrig
 
     data = json.loads(open(path).read())
     case = data.get('replay', data)
+    if case.get('stage') == 'openconfirm':
+        res = run_oc(case)
+        oc = res['oc']
+        print('our OPEN hold time', case['local'], '/ peer OPEN hold time', case['peer'], '→ H =', min(case['local'], case['peer']))
+        print('after its OPEN the remote sends', case['kind'], 'at', case['arrivals'], 'ms; observed for', case['until'], 'ms')
+        print('Peer._read_ka:', oc)
+        print('remote saw:', [(ms, k, st) for ms, k, st in res['wrote'] if k != 'UPDATE'][:8], 'closed_ms', res['closed_ms'], 'fsm', res['fsm'])
+        what = oracle_oc(case, res)
+        print('holds :', what is None, '' if what is None else what)
+        return 0 if what is None else 1
     if 'local' in case:
         case.setdefault('kind', 'keepalive')
         res = run_estab(case)
